@@ -189,7 +189,28 @@ def stop_pool():
         _POOL = None
 
 
+def _tramp(fn, arg):
+    return fn(arg)
+
+
+# CPython 3.12 keeps interpreter frames in 16 KiB "data stack" chunks that are
+# mmap()ed / munmap()ed whenever the call depth crosses a chunk boundary; deep
+# visitor recursion does that ~80 times per compile, and 16 processes taking
+# those page faults at once run 6x slower on this VM.  A frame that claims a
+# very large evaluation stack forces one big chunk; everything called from it
+# lives in the remainder of that chunk.
+_tramp.__code__ = _tramp.__code__.replace(co_stacksize=1_100_000)
+
+
+def big_frame(fn, arg=None):
+    return _tramp(fn, arg)
+
+
 def _task(spec):
+    return _tramp(_task_inner, spec)
+
+
+def _task_inner(spec):
     """Runs in a pool worker: (prop, tier, seed, part, shard, nshards)."""
     prop, tier, seed, part, shard, nshards = spec
     import importlib
